@@ -248,7 +248,8 @@ impl GraphInline {
                 if !self.is_ref() && url.strip_prefix("mailto:") == Some(text.as_str()) {
                     // a mail address goes back between angle brackets
                     format!("<{}>", text)
-                } else if !self.is_ref() && text == *url {
+                } else if !self.is_ref() && text == *url && model::has_scheme(url) {
+                    // (only an address with a scheme is a link between angle brackets)
                     format!("<{}>", url)
                 } else if self.is_ref() {
                     format!(
